@@ -320,7 +320,7 @@ def known_findings(pid):
         kf = json.load(open(os.path.join(VERIF, 'KNOWN_FINDINGS.json')))
     except Exception:
         return []
-    return [e for e in kf.get('findings', []) if e.get('property') == pid and e.get('status') == 'open']
+    return [e for e in kf.get('findings', []) if (e.get('property') == pid or pid in e.get('also_affects', [])) and e.get('status') == 'open']
 
 
 class Report:
